@@ -29,6 +29,11 @@ def getRegion (east north : List Rat) : Option Region := do
   let s ← listMin north; let n ← listMax north
   pure ⟨w, e, s, n⟩
 
+/-- The four bounds `get_region` computes with `numpy.min/max` (`ValueError` on an empty array). -/
+def quadOfOpts : Option Rat × Option Rat × Option Rat × Option Rat → Except Err (Rat × Rat × Rat × Rat)
+  | (some a, some b, some c, some d) => .ok (a, b, c, d)
+  | _ => .error .valueError
+
 /-- `pad_region` with `pad = (north_pad, east_pad)`. -/
 def padRegion (r : Region) (padN padE : Rat) : Region :=
   ⟨r.w - padE, r.e + padE, r.s - padN, r.n + padN⟩
